@@ -145,6 +145,14 @@ def misc_ops(tables, seed, count, prefix="M"):
     plans = ["COLLSCAN", "IXSCAN { a: 1 }", "IXSCAN { a: 1, name: -1 }", "IXSCAN {a:1}, IXSCAN { b.c: 1 }", "IXSCAN{}", "IXSCAN { }", "IXSCAN { : 1 }", "IXSCAN { a..b: 1 }",
              "IDHACK", "", "IXSCAN", "IXSCAN {", "IXSCAN { a: 1", "FETCH IXSCAN \t\n{ IX: 1, SCAN: 1 }", "IXSCAN { a: 1 } IXSCAN { a: 1 }", "IXSCAN { é: 1,  b　: 1 }",
              "IXSCAN { a:b:c, d }", "SORT_MERGE [ IXSCAN { x: 1 }, IXSCAN { y: 1 } ]", "IXSCANIXSCAN { q: 1 }", "IXSCAN { a: 1 }}", "ixscan { a: 1 }", "IXSCAN { $**: 1 }", "IXSCAN { REDACTED: 1, R: 1 }"]
+    plans += ["IXSCAN { foo: 1, foobar: -1 }", "IXSCAN { a: 1, b: 1 }", "EXPRESS_IXSCAN { _id: 1 }", "COUNT_SCAN { a: 1 }", "IXSCAN { a: 1, a: -1 }", "IXSCAN { IXSCAN: 1, e: 1, c: 1, 0: 1 }",
+              "IXSCAN { a : 1 , b.c :-1,d:  1}", "IXSCAN { a.a: 1, a: 1 }", "IXSCAN { : }", "IXSCAN { , }", "IXSCAN { a: 1,, b: 1 }", "IXSCAN { a }", "IXSCAN { a a: 1 }", "IXSCAN {\ta:1\n}",
+              "IXSCAN { x: \"2dsphere\", y: \"text\" }", "IXSCAN { _fts: \"text\", _ftsx: 1 }", "IXSCAN { REDACTED_ca978112ca1bbdca: 1 }", "IXSCAN { $a: 1 }", "IXSCAN { a$: 1, $: 1 }"]
+    pieces = ["IXSCAN", " ", "{", "}", ",", ":", "a", "b", "ab", "a.b", "1", "-1", "  ", "foo", "IX", "\t", "é", ".", "$", "COLLSCAN", "FETCH", "[", "]", "_"]
+    for i in range(count):
+        plans.append("".join(rng.choice(pieces) for _ in range(2 + rng.below(14))))
+        body = ", ".join("%s%s:%s%s" % (rng.choice(["", " ", "  "]), rng.choice(["a", "b", "ab", "a.b", "foo", "foobar", "x1", "é.y", "_id"]), rng.choice(["", " "]), rng.choice(["1", "-1", '"text"'])) for _ in range(1 + rng.below(4)))
+        plans.append(rng.choice(["", "FETCH ", "SORT "]) + rng.choice(["IXSCAN", "IXSCAN ", "IXSCAN  ", "EXPRESS_IXSCAN "]) + "{" + body + rng.choice([" }", "}"]) + rng.choice(["", ", IXSCAN { a: 1 }", " }"]))
     for i, p in enumerate(plans):
         ops.append(("%sp%d" % (prefix, i), ["plan", hx(p)]))
         ops.append(("%spr%d" % (prefix, i), ["planredact", Cfg().s(), hx(p)]))
